@@ -3059,6 +3059,7 @@ void NifFile::SetDefaultPartition(NiShape* shape) {
 		}
 
 		if (!tris.empty()) {
+			part.hasFaces = true;
 			part.numTriangles = static_cast<uint16_t>(tris.size());
 			part.trueTriangles = tris;
 			if (!bMappedIndices)
